@@ -675,6 +675,9 @@ def gen_neox_plan(rng: random.Random, tier: str, *, restarts: float,
         if pp * dp * mp <= cap:
             break
     hps = gen.gen_hps(rng, callables=0.2, clip_none=0.1)
+    for spec in hps.values():
+        if spec.get('f') == 'ext':
+            spec['f'] = 'cycle'
     if rng.random() < 0.45:
         hps['kl_clip'] = {'c': 1e6}
     acc = rng.choice([1, 1, 2])
